@@ -4,6 +4,7 @@ go 1.22.2
 
 require (
 	github.com/google/fhir/go v0.7.4
+	github.com/shopspring/decimal v1.4.0
 	github.com/verily-src/fhirpath-go v0.0.0
 	google.golang.org/protobuf v1.34.1
 )
@@ -13,7 +14,6 @@ require (
 	github.com/golang/protobuf v1.5.4 // indirect
 	github.com/google/uuid v1.6.0 // indirect
 	github.com/iancoleman/strcase v0.3.0 // indirect
-	github.com/shopspring/decimal v1.4.0 // indirect
 	golang.org/x/exp v0.0.0-20240416160154-fe59bbe5cc7f // indirect
 )
 
